@@ -97,8 +97,62 @@ class _FakeSock:
         return len(data)
 
 
+class _LoopSock:
+    """A blocking scripted socket for a handler whose serving loop runs in its own thread, with a strict hand-off: the driver
+    queues one item (bytes, the idle time-out marker, or b"" = the peer closed) and waits until the handler has consumed it and
+    blocks in recv() again (or has left its loop).  So exactly one of the two threads runs at any time: no scheduling freedom."""
+    TIMEOUT = object()
+
+    def __init__(self, drv, conn):
+        import collections
+        import threading
+        self.drv, self.conn = drv, conn
+        self.cv = threading.Condition()
+        self.items = collections.deque()
+        self.waiting = False
+        self.dead = False
+        self.raised = ""
+
+    def recv(self, n):
+        with self.cv:
+            self.waiting = True
+            self.cv.notify_all()
+            while not self.items:
+                if not self.cv.wait(30):
+                    self.waiting = False
+                    return b""            # the driver went away: behave like a closed peer so the thread ends
+            self.waiting = False
+            it = self.items.popleft()
+            if it is not self.TIMEOUT and len(it) > n:
+                self.items.appendleft(it[n:])      # a socket hands out at most n bytes per call
+                it = it[:n]
+        if it is self.TIMEOUT:
+            import socket
+            raise socket.timeout("timed out")
+        return it
+
+    read = recv
+
+    def send(self, data):
+        self.drv._w(self.conn, data)
+        return len(data)
+
+    write = send
+
+    def push(self, item):
+        """queue one item and wait until the handler is idle again; False if the hand-off did not complete (the handler hangs)"""
+        with self.cv:
+            if self.dead:
+                return True
+            self.items.append(item)
+            self.cv.notify_all()
+            ok = self.cv.wait_for(lambda: self.dead or (self.waiting and not self.items), timeout=60)
+        return ok
+
+
 class SyncTcp(_Base):
-    """ModbusConnectedRequestHandler: handle() is re-entered once per chunk (it leaves its loop on an empty read)."""
+    """ModbusConnectedRequestHandler: handle() - the real serving loop - runs once per connection, in its own thread, from the
+    first byte to the close of the connection (loop-local state such as reset_frame lives as long as in a real server)."""
     name = "syncTcp"
 
     def __init__(self, kind, context, cfg):
@@ -107,38 +161,50 @@ class SyncTcp(_Base):
         self.h = {}
 
     def open(self):
+        import threading
         c = super().open()
-        sock = _FakeSock(self, c)
+        sock = _LoopSock(self, c)
 
         class H(S.ModbusConnectedRequestHandler):
             def __init__(hs, request, client_address, server):   # noqa: N805 - no handle() in the constructor
                 hs.request, hs.client_address, hs.server = request, client_address, server
                 hs.setup()
         h = H(sock, ("peer", c), self.srv)
-        sock.handler = h
-        self.h[c] = (h, sock, False)
+
+        def loop():
+            try:
+                h.running = True
+                h.handle()
+            except Exception as ex:      # an exception leaving handle(): socketserver would print it and drop the connection
+                sock.raised = type(ex).__name__
+            finally:
+                with sock.cv:
+                    sock.dead = True
+                    sock.cv.notify_all()
+        th = threading.Thread(target=loop, daemon=True)
+        th.start()
+        with sock.cv:
+            sock.cv.wait_for(lambda: sock.dead or sock.waiting, timeout=60)
+        self.h[c] = (h, sock, th)
         return c
 
     def feed(self, conn, data):
-        h, sock, dead = self.h[conn]
+        h, sock, th = self.h[conn]
         self.writes = []
-        if dead:
+        if sock.dead:
             return {"writes": [], "raised": "", "closed": 1}
-        raised = ""
-        sock.pending = bytes(data)
-        h.running = True
-        closed = 0
-        e0 = sock.empties
-        try:
-            h.handle()
-        except Exception as ex:
-            raised = type(ex).__name__
-        # the loop normally ends on the empty read that follows the chunk; if it ended before reading it, the
-        # handler gave up on this connection (its catch-all sets running = False): the connection is closed
-        if sock.empties == e0:
-            closed = 1
-            self.h[conn] = (h, sock, True)
-        return {"writes": list(self.writes), "raised": raised, "closed": closed}
+        # an empty chunk is not a TCP event; it stands for an idle period in which recv() times out
+        ok = sock.push(bytes(data) if len(data) else _LoopSock.TIMEOUT)
+        raised, sock.raised = sock.raised, ""
+        if not ok:
+            raised = raised or "HANG"
+        return {"writes": list(self.writes), "raised": raised, "closed": 1 if sock.dead else 0}
+
+    def close(self):
+        for c, (h, sock, th) in self.h.items():
+            if not sock.dead:
+                sock.push(b"")            # the peer closes: recv() returns b"" and the loop ends
+            th.join(5)
 
 
 class SyncSerial(_Base):
